@@ -402,6 +402,9 @@ fn small_inputs(r: &mut StdRng, tier: &str) -> Vec<Vec<Kv>> {
     v.push(vec![(b"a".to_vec(), 1), (b"ab".to_vec(), 70000), (b"b".to_vec(), 2)]);
     v.push(assign(fanout_keys(b"", 33, false, b"", 10), ValMode::Index, r));
     v.push(assign(fanout_keys(b"x", 3, true, b"yz", 250), ValMode::Boundary, r));
+    // chains of single-transition nodes over bytes outside the common-input table
+    v.push(assign(vec![vec![0x00, 0x01, 0x02, 0x1F], vec![0x00, 0x7F, 0x80], vec![0xFF, 0xFE, 0x80, 0x81, 0x9C]], ValMode::Zero, r));
+    v.push(assign(vec![vec![0x05, 0x06, 0x07], vec![0xC3, 0xA9, 0xC3, 0xAA]], ValMode::Index, r));
     let n = if tier == "thorough" { 12 } else { 4 };
     for _ in 0..n {
         let nk = *pick(r, &[2usize, 4, 8]);
